@@ -2,6 +2,7 @@ package checks
 
 import (
 	"fmt"
+	"go/token"
 	"go/types"
 	"os"
 	"sort"
@@ -419,9 +420,10 @@ func checkC18(c *Ctx) *core.Result {
 	// a positive fixture for the zero-instance S-conv rule is part of the selftest battery; here: the rule must have looked at the q-string needle
 	if strCore := a.Fn("sql.stringCore"); strCore != nil {
 		checkContentStartUniform(p, a, r, strCore)
+		checkDelimiterUniform(p, r, strCore)
 	}
 	r.Extra["roots"] = sr.describe()
-	r.Explanation = e3Explain + " C18 adds at the return of every lexer: O-hit (every search hit of the step — IndexByte/Index on the input — satisfies hit + len(needle) ≤ returned cursor), and for string tokens O-str (the literal ends exactly at a found terminator and the cursor becomes that position + len(needle), with strClose ≠ 0; or no terminator was found, the literal runs to end of input, the cursor is the length and strClose = 0). S-self: no strings.Index of a string for a substring of itself (finds the first copy, not the one at the known offset). S-conv: no string(byte) of an input-derived byte. K6: the string lexer depends on (pos, offset) only through pos+offset, so the real and the simulated opening quote are treated alike. NOT decided: backslash parity and the doubled-delimiter rule themselves (which hits are rejected)."
+	r.Explanation = e3Explain + " C18 adds at the return of every lexer: O-hit (every search hit of the step — IndexByte/Index on the input — satisfies hit + len(needle) ≤ returned cursor), and for string tokens O-str (the literal ends exactly at a found terminator and the cursor becomes that position + len(needle), with strClose ≠ 0; or no terminator was found, the literal runs to end of input, the cursor is the length and strClose = 0). S-self: no strings.Index of a string for a substring of itself (finds the first copy, not the one at the known offset). S-conv: no string(byte) of an input-derived byte. K6: the string lexer depends on (pos, offset) only through pos+offset, so the real and the simulated opening quote are treated alike. K7: inside the string lexer (and the helpers it hands the delimiter to) the delimiter is only searched for, stored and compared with non-constant bytes - never tested against a constant, switched on or used as a table index - so backslash and doubled-delimiter handling cannot differ between ' \" and `. NOT decided: backslash parity and the doubled-delimiter rule themselves (which hits are rejected)."
 	r.Trusted = []string{"go/ssa", "E3 transfer functions and library models (search results)", "in-checker simplex"}
 	return r
 }
@@ -485,4 +487,97 @@ func nextHaystackLo(e *absint.Engine, st *absint.State, fr *absint.Frame, call *
 		return lo, true
 	}
 	return absint.Lin{}, false
+}
+
+// checkDelimiterUniform (K7): the string lexer core treats the three quote
+// characters alike.  Its delimiter parameter (the one byte-typed parameter) may
+// be used as the needle of a library search, stored into the token, compared
+// with a byte that is not a constant (the doubled-delimiter test) and handed
+// to helpers under the same rule; a comparison of the delimiter with a
+// constant, a switch on it, arithmetic on it or a table indexed by it makes
+// the escape rules ("not preceded by an odd number of backslashes, not
+// doubled") depend on which quote character opened the literal.  Necessary
+// condition of the statement's "any of ' \" `".
+func checkDelimiterUniform(p *core.Program, r *core.Result, fn *ssa.Function) {
+	var delim *ssa.Parameter
+	nb := 0
+	for _, prm := range fn.Params {
+		if b, ok := prm.Type().Underlying().(*types.Basic); ok && b.Kind() == types.Uint8 {
+			delim = prm
+			nb++
+		}
+	}
+	if nb != 1 {
+		anchorFail(r, "sql.stringCore delimiter parameter", fmt.Sprintf("expected exactly one byte-typed parameter, found %d", nb))
+		return
+	}
+	type item struct {
+		v     ssa.Value
+		fn    *ssa.Function
+		depth int
+	}
+	seen := map[ssa.Value]bool{}
+	work := []item{{delim, fn, 0}}
+	n := 0
+	isConst := func(v ssa.Value) bool { _, ok := ssax.ConstInt(v); return ok }
+	for len(work) > 0 {
+		it := work[len(work)-1]
+		work = work[:len(work)-1]
+		if seen[it.v] {
+			continue
+		}
+		seen[it.v] = true
+		refs := it.v.Referrers()
+		if refs == nil {
+			continue
+		}
+		for _, ins := range *refs {
+			where := p.Pos(ins.Pos())
+			switch x := ins.(type) {
+			case *ssa.BinOp:
+				other := x.Y
+				if x.Y == it.v {
+					other = x.X
+				}
+				expr := fmt.Sprintf("delimiter %s %s", x.Op, core.Short(ssax.Canon(other)))
+				n++
+				switch {
+				case (x.Op == token.EQL || x.Op == token.NEQ) && !isConst(other):
+					r.OK("K7", core.QualName(it.fn), expr, where, "compared with a byte, not with a constant")
+				default:
+					r.Fail("K7", core.QualName(it.fn), expr, where, "the string lexer tests or transforms its delimiter against a constant: the termination rules (backslash parity, doubled delimiter) then differ between the quote characters ' \" `")
+				}
+			case *ssa.Phi, *ssa.ChangeType, *ssa.Convert:
+				work = append(work, item{x.(ssa.Value), it.fn, it.depth})
+			case *ssa.Store:
+				n++
+				r.OK("K7", core.QualName(it.fn), "delimiter stored", where, "recorded in the token")
+			case *ssa.Index, *ssa.IndexAddr, *ssa.Lookup:
+				n++
+				r.Fail("K7", core.QualName(it.fn), "table indexed by the delimiter", where, "a table look-up keyed by the delimiter makes the string lexer's behaviour depend on the quote character (undecided: the rows are not compared)")
+			case ssa.CallInstruction:
+				callee := x.Common().StaticCallee()
+				for i, arg := range x.Common().Args {
+					if arg != it.v {
+						continue
+					}
+					n++
+					switch {
+					case callee == nil:
+						r.Fail("K7", core.QualName(it.fn), "delimiter passed to a dynamic call", where, "undecided: callee unknown")
+					case !p.InModule(callee):
+						r.OK("K7", core.QualName(it.fn), "delimiter passed to "+callee.String(), where, "library call (needle of the terminator search)")
+					case it.depth >= 4 || i >= len(callee.Params):
+						r.Fail("K7", core.QualName(it.fn), "delimiter passed to "+callee.Name(), where, "undecided: helper chain too deep")
+					default:
+						r.OK("K7", core.QualName(it.fn), "delimiter passed to "+callee.Name(), where, "helper judged under the same rule")
+						work = append(work, item{callee.Params[i], callee, it.depth + 1})
+					}
+				}
+			}
+		}
+	}
+	if n < 2 {
+		r.Fail("vacuity", core.QualName(fn), "K7 sites", p.Pos(fn.Pos()), fmt.Sprintf("only %d uses of the delimiter found in the string lexer", n))
+	}
 }
